@@ -69,6 +69,12 @@ func (q *Query) smtOpt(withModel, ground bool) string {
 		rf := fx.ar.rangeFactRO(fmt.Sprintf("(select (select %s o) i)", name), et)
 		allocAx = append(allocAx, fmt.Sprintf("(forall ((o Int) (i Int)) (! %s :pattern ((select (select %s o) i))))", rf, name))
 	}
+	// function-typed package variables set once by init to a function value: never nil
+	for g := range fx.eng.funcGlobals {
+		if used[g+"@0"] {
+			allocAx = append(allocAx, fmt.Sprintf("(> %s@0 0)", g))
+		}
+	}
 	// package-level error values: non-nil, pairwise distinct, allocated before entry
 	var errData []string
 	for g := range fx.eng.errGlobals {
